@@ -10,7 +10,7 @@ LEVEL = 'exploration'
 RULE = ('(i) G1: programs derived from ECMA-262 5.1 Annex A with the dictated tree known by construction, '
         'rendered under 4 layout levels; (ii) G2: every string of <= n tokens (n=3 quick, 4 thorough) over a '
         '29-token alphabet, joined by single spaces; (iii) G3: single-token mutations (delete/insert/replace/'
-        'duplicate/swap) and subtree-level mutations (the token range of a node duplicated, deleted, swapped with or replaced by another node\'s) of G1 outputs and of the repository test snippets; (iv) exhaustively, every BMP character whose general category makes it an identifier character both in Unicode 3.2 and in the current database, in first and in later position of an identifier. Oracle: acceptance equals the '
+        'duplicate/swap) and subtree-level mutations (the token range of a node duplicated, deleted, swapped with or replaced by another node\'s) of G1 outputs and of the repository test snippets; (iv) exhaustively, every BMP character whose general category makes it an identifier character both in Unicode 3.2 and in the current database, in first and in later position of an identifier; (v) exhaustively, every run of 1..4 (thorough: 5) operator characters <>=!+-*%&|^~?:. between two identifiers, as a statement and as the right-hand side of an assignment. Oracle: acceptance equals the '
         'reference front end R1 (both directions) and canonical trees are equal (for G1 also equal to the '
         'constructed tree). non-trivial = both accept and the tree has >= 4 node kinds and depth >= 3, or R1 '
         'rejects after consuming >= 2 tokens; distinct by source text')
@@ -48,6 +48,7 @@ def plan(tier, seed):
                        'hseed': seed * 1000 + 500 + k})
     for k in range(16):
         shards.append({'name': 'ids-%d' % k, 'kind': 'ids', 'k': k, 'of': 16})
+        shards.append({'name': 'ops-%d' % k, 'kind': 'ops', 'part': k, 'maxlen': 4 if tier == 'quick' else 5})
     return shards
 
 
@@ -175,6 +176,15 @@ def run_shard(shard):
             acc.case(text, False, {'text': text} if i % 4000 == 0 else None)
             acc.label('ids_%s_%s' % (info.get('calmjs'), info.get('ref')))
         acc.extra['identifier_characters_swept'] = n
+    elif kind == 'ops':
+        # every run of operator characters between two identifiers, as a program: `a<!--b`, `a---b`, `a+ +b` ...
+        from props import c06
+        for text in c06.operator_runs(shard['part'], shard['maxlen']):
+            for text in (text, 'x = ' + text + ';'):
+                info = check_text(acc, text, opens, None, 'ops')
+                acc.case(text, info.get('calmjs') == 'ok' and len(text) >= 5,
+                         {'text': text} if text.startswith('a<!') else None)
+                acc.label('ops_%s_%s' % (info.get('calmjs'), info.get('ref')))
     elif kind == 'g2':
         for idx in range(shard['lo'], shard['hi']):
             toks = gen_tokens.string_at(idx)
